@@ -1042,6 +1042,9 @@ def rule_profile_diff(prop, ctx_repo_dev, repo_rel, ls_factory):
                 unk = any(o.unknown for o in ex.values())
                 R.check(not unk, key, "debug_assert! in %s could not be decided over the abstract input domain" % p, loc_of(b, bb), p, sample={"site": loc_of(b, bb), "never_fires": True})
         else:
+            if bytes_discharge(repo, ls_factory, lscache, b, bb, callers, panic_site=True):
+                R.ok(sample={"site": loc_of(b, bb), "fn": p, "never_fires": "no abstract input of any byte-level function that reaches this helper ends in the panic"})
+                continue
             dead, how = debug_assert_unreachable(repo, b, bb)
             if dead:
                 R.ok(sample={"site": loc_of(b, bb), "fn": p, "never_fires": how})
@@ -1144,7 +1147,7 @@ def debug_assert_unreachable(repo, b, bb):
         return False, ""
 
 
-def bytes_discharge(repo, ls_factory, cache, b, bb, callers=None):
+def bytes_discharge(repo, ls_factory, cache, b, bb, callers=None, panic_site=False):
     """Is the assertion decided safe for every abstract input (length, first byte)? Byte-provenance abstract execution over
     the complete length partition of the function itself when it takes the bytes, otherwise (a private helper whose
     arguments are fixed by its callers, e.g. a const-generic padding routine) of every byte-level function it is reached from."""
@@ -1156,7 +1159,8 @@ def bytes_discharge(repo, ls_factory, cache, b, bb, callers=None):
             qb = F.bodies[q]
             cv = ls_factory(repo)
             sp, kinds = cv.shape(qb)
-            if (sp is None and not any(k.startswith("array") for k in kinds)) or qb.rec.get("requires_mono"):
+            produces_bytes = "[u8" in (qb.rec.get("output") or "")      # an encoder: no byte input, one outcome per abstract self
+            if (sp is None and not any(k.startswith("array") for k in kinds) and not produces_bytes) or qb.rec.get("requires_mono"):
                 cache[q] = None
             else:
                 ex = cv.explore(qb)
@@ -1172,6 +1176,12 @@ def bytes_discharge(repo, ls_factory, cache, b, bb, callers=None):
             cv, ex = e
             if any(o.unknown for o in ex.values()):
                 return False
+            if panic_site:
+                # a diverging call (debug_assert! / unreachable!): no abstract input may end in it, and the function must have been entered
+                if any(pn[1] and pn[1][0] == p and pn[1][1] == bb for o in ex.values() for pn in o.panics):
+                    return False
+                visits[0] += 1 if p in getattr(cv, "visited", ()) else 0
+                return True
             rec = cv.sites.get((p, bb))
             if rec and (rec["fail"] or rec["unknown"]):
                 return False
